@@ -159,6 +159,7 @@ pub fn step(ex: &mut Exec, ix: usize, op: &Op) {
             if (ex.on_prop("C16") && (stale || grew)) || (ex.on_prop("C19") && stale && ex.scratch_grew[*t]) {
                 ex.out.nontrivial = true;
             }
+            ex.note_state(&[9, (a.len().min(80) / 8) as u64, (b.len().min(80) / 8) as u64, (ex.scratch_prev_len[*t].min(80) / 8) as u64, grew as u64, ex.capacity().map(|c| c as u64 + 1).unwrap_or(0), (after.min(120) / 12) as u64]);
             ex.scratch_prev_len[*t] = longer;
             if !ex.on_prop("C16") {
                 return;
@@ -272,6 +273,7 @@ pub fn step(ex: &mut Exec, ix: usize, op: &Op) {
             if ex.on_prop("C19") && stale && ex.scratch_grew[*t] {
                 ex.out.nontrivial = true;
             }
+            ex.note_state(&[10, (a.len().min(80) / 8) as u64, (b.len().min(80) / 8) as u64, (ex.scratch_prev_len[*t].min(80) / 8) as u64, ex.scratch_grew[*t] as u64, ex.capacity().map(|c| c as u64 + 1).unwrap_or(0)]);
             ex.scratch_prev_len[*t] = longer;
             if !ex.on_prop("C17") {
                 return;
@@ -338,6 +340,7 @@ pub fn step(ex: &mut Exec, ix: usize, op: &Op) {
                     ex.out.nontrivial = true;
                 }
             }
+            ex.note_state(&[11, (longer.min(80) / 8) as u64, (ex.scratch_prev_len[*t].min(80) / 8) as u64, ex.scratch_grew[*t] as u64, *fin as u64, ex.capacity().map(|c| c as u64 + 1).unwrap_or(0)]);
             ex.scratch_prev_len[*t] = longer;
             if !ex.on_prop("C16") {
                 return;
